@@ -46,6 +46,12 @@ uint8_t vp_read(int *ok) {
 	*ok = 1;
 	g_reads++;
 	if (stop) bidib_running = false;   /* the library may be stopped at any byte; the byte is still consumed by the state machine */
+#ifdef VP_GAPS
+	/* bounded variant: the serial line may have nothing to deliver at any poll (the caller polls again); at most
+	 * VP_MAX_READS polls, then the library is stopped */
+	if (g_reads >= VP_MAX_READS) bidib_running = false;
+	{ _Bool avail; if (!avail) { *ok = 0; return b; } }
+#endif
 	if (g_done) return b;
 	if (b == 0xFE) { if (g_len != 0 || g_over) g_done = 1; }
 	else if (b == 0xFD) g_esc = 1;
@@ -65,7 +71,11 @@ void vp_harness(void) {
 	bidib_receive_packet();
 	VP_COVER(g_split_calls == 1);
 	VP_COVER(g_done && g_crc != 0);
+#ifndef VP_GAPS
 	VP_COVER(g_over && g_done);
+#else
+	VP_COVER(g_split_calls == 1 && g_reads == VP_MAX_READS - 1 && g_len == 2);
+#endif
 	_Bool good = bidib_running && g_done && !g_over && g_crc == 0;
 	__CPROVER_assert(g_split_calls == (good ? 1u : 0u), "C02.receive.split_called_iff_complete_packet_with_valid_crc");
 	if (good) {
